@@ -34,6 +34,9 @@ typedef struct {
 } sched_t;
 static sched_t g_sched[VP_MAX_THREADS];
 static _Atomic long g_max_bypass;
+static _Atomic long g_bypass_limit;  // 0 = no online limit
+static _Atomic long g_bypass_slack_per_live;
+static _Atomic long g_live_peak;  // most fibers alive at once since the limit was set
 
 static vp_counter_t *c_switch, *c_migr, *c_steal, *c_skip, *c_sched, *c_create, *c_destroy, *c_direct, *c_early_wake,
     *c_sleep, *c_fdwait, *c_idle, *c_recreate;
@@ -163,6 +166,12 @@ static void ghost_obs(int point, const void* a, const void* b, int me) {
           long cur = atomic_load(&g_max_bypass);
           while (bypass > cur && !atomic_compare_exchange_weak(&g_max_bypass, &cur, bypass)) {
           }
+          const long lim = atomic_load(&g_bypass_limit);
+          if (lim && bypass > lim + atomic_load(&g_bypass_slack_per_live) * atomic_load(&g_live_peak)) {
+            gviol("C10", "yield:ready-fiber-bypassed",
+                  "fiber %p sat ready in the run queues of thread %d while that thread switched to other fibers %ld times (limit %ld + %ld x %ld fibers alive at most)",
+                  b, me, bypass, lim, atomic_load(&g_bypass_slack_per_live), atomic_load(&g_live_peak));
+          }
         }
       }
       atomic_fetch_add(&gn->switches_in, 1);
@@ -251,7 +260,12 @@ static void ghost_obs(int point, const void* a, const void* b, int me) {
       atomic_store(&g->last_thread, 0);
       atomic_store(&g->migrations, 0);
       atomic_fetch_add(&g->gen, 1);
-      atomic_fetch_add(&g_live, 1);
+      {
+        const long lv = atomic_fetch_add(&g_live, 1) + 1;
+        long pk = atomic_load(&g_live_peak);
+        while (lv > pk && !atomic_compare_exchange_weak(&g_live_peak, &pk, lv)) {
+        }
+      }
       vp_add(c_create, 1);
       break;
     }
@@ -327,6 +341,11 @@ long vp_ghost_live_fibers(void) { return atomic_load(&g_live); }
 uint64_t vp_ghost_ticks(void) { return atomic_load(&g_ticks); }
 long vp_ghost_max_bypass(void) { return atomic_load(&g_max_bypass); }
 void vp_ghost_reset_bypass(void) { atomic_store(&g_max_bypass, 0); }
+void vp_ghost_set_bypass_limit(long base, long per_live_fiber) {
+  atomic_store(&g_bypass_slack_per_live, per_live_fiber);
+  atomic_store(&g_live_peak, atomic_load(&g_live));
+  atomic_store(&g_bypass_limit, base);
+}
 
 int vp_ghost_quiescent(void) {
   const uint64_t e = atomic_load(&g_epoch);
